@@ -168,7 +168,8 @@ CHECKS = {
         category="proof",
         text="Per-argument decision proved in Lean for EVERY declared parameter type and argument type (any tags, object classes, variant lists): if every possible value of the argument is rejected by the parameter, checkArgType reports a mismatch (rejected_reported; false before three fix: commits, witnesses kept as examples). The model (IsMatchType, isCoveredBy, isAcceptVariant, IsMatchUnionType, checkArgType) is tied by the `match` differential stream through a verif hook. "
              "Counting and binding: on the model of the binding loop of checkAndPropagateArgs (Model/Bind.lean, tied by the `bind` stream through hooks that declare a configured method and call the real loop on required / defaulted / rest / keyword signatures), a positional call is accepted exactly when it fits (bind_pos_ok_iff), hence too many arguments, a required parameter left without an argument, or an all-rejected argument are each reported (too_many_reported, missing_required_reported, rejected_argument_reported). "
-             "Receiver lookup (C16's lookup stream), overload fallback and union receivers are checked end-to-end: generated configurations next to the shipped one, generated programs (ternary unions, instance and class-method calls, nested in if/unless/blocks), a class-level oracle marks calls that CERTAINLY FAIL; each such row (up to the first diagnostic of the program) must be reported.",
+             "Union receivers and overloads: on the model of checkAndPropagateArgsForUnionWithReturnT (Bind.bindUnion: every class in turn, its declarations in order, the last error when none accepts; tied by the `bindu` stream through a hook) a call is an error whenever for ONE class of the union every declaration rejects the arguments, for any number of classes and overloads (union_rejected_reported). "
+             "Receiver lookup (C16's lookup stream) and the glue are checked end-to-end: generated configurations next to the shipped one, generated programs (ternary unions, instance and class-method calls, nested in if/unless/blocks), a class-level oracle marks calls that CERTAINLY FAIL; each such row (up to the first diagnostic of the program) must be reported.",
         design="DESIGN.md §4 C07/C08",
         note="Partial: the counting/binding theorems cover positional signatures (rest and keyword parameters: stream and end-to-end); overload fallback and union receivers are end-to-end only. Known finding K28: configured rest parameters do not check their element type. Five fix: commits repaired defects this check found.",
         technique="Lean 4 proof (case analysis over the matching model) + differential stream over a hook + end-to-end oracle comparison on generated configurations",
